@@ -167,11 +167,13 @@ def render_def(prog, i):
             L += ["    def inner(t_):", "        return " + inner, "    r += inner(x)"]
     for p, d in nd["params"][1:] + nd["kwonly"]:
         L.append("    r += %s" % p)
+    for late in nd.get("late", []):
+        L += ["    if x < -1000:", "        r += %s(x)" % late]  # referenced, never executed
     L.append("    return r")
     return "\n".join(L) + "\n"
 
 
-def header(prog, mod, twin):
+def header(prog, mod, twin, skip=()):
     pkg = ("tw_" if twin else "") + prog["pkg"]
     L = ["import datetime", "import functools", "import vf.twin as m" if twin else "import twosigma.memento as m",
          "from vf.recorder import %s as REC" % ("TWIN_REC" if twin else "REC")]
@@ -192,13 +194,14 @@ def header(prog, mod, twin):
         for al in prog["aliases"]:
             if al["mod"] == "b" and prog["nodes"][al["target"]]["mod"] == "a":
                 names.add(prog["nodes"][al["target"]]["name"])
+        names -= set(skip)
         if names:
             L.append("from %s.a import %s" % (pkg, ", ".join(sorted(names))))
     return "\n".join(L) + "\n\n"
 
 
-def render_module(prog, mod, twin=False, order=None):
-    parts = [header(prog, mod, twin)]
+def render_module(prog, mod, twin=False, order=None, skip=()):
+    parts = [header(prog, mod, twin, skip)]
     for v in prog["vars"]:
         if v["mod"] == mod:
             parts.append("%s = %s\n" % (v["name"], var_literal(v)))
@@ -207,14 +210,16 @@ def render_module(prog, mod, twin=False, order=None):
     if order is not None:
         idx = sorted(idx, key=lambda i: order.index(i))
     for i in idx:
+        if prog["nodes"][i]["name"] in skip:
+            continue
         parts.append(render_def(prog, i) + "\n")
     for al in prog["aliases"]:
-        if al["mod"] == mod:
+        if al["mod"] == mod and prog["nodes"][al["target"]]["name"] not in skip:
             parts.append("%s = %s\n" % (al["name"], prog["nodes"][al["target"]]["name"]))
     return "".join(parts)
 
 
-def write_package(prog, root, twin=False, order=None):
+def write_package(prog, root, twin=False, order=None, skip=()):
     import os
 
     pkg = ("tw_" if twin else "") + prog["pkg"]
@@ -224,7 +229,7 @@ def write_package(prog, root, twin=False, order=None):
         f.write("")
     for mod in ("a", "b"):
         with open(os.path.join(d, mod + ".py"), "w") as f:
-            f.write(render_module(prog, mod, twin, order))
+            f.write(render_module(prog, mod, twin, order, skip))
     return d
 
 
@@ -269,6 +274,42 @@ def bump_explicit_above(prog, node=None, var=None):
 
 
 # ---------------------------------------------------------------- edit operators
+def apply_special(rng, prog, kind):
+    """Edits used by C13 only: late-defined symbols and memento <-> plain switches."""
+    p = copy.deepcopy(prog)
+    nodes = p["nodes"]
+    desc = {"kind": kind, "var": None}
+    cand = list(range(len(nodes)))
+    rng.shuffle(cand)
+    if kind == "late_ref":
+        i = cand[0]
+        name = "late_%d" % (p["serial"] + len(nodes))
+        p["serial"] += 1
+        nodes[i].setdefault("late", []).append(name)
+        desc.update(node=i, changed_defs=[i], late=name)
+        return p, desc
+    if kind == "late_def":
+        for i in cand:
+            for name in nodes[i].get("late", []):
+                if not any(nd["name"] == name for nd in nodes):
+                    nodes.append({"name": name, "mod": nodes[i]["mod"], "kind": rng.choice(["memento", "plain"]),
+                                  "version": None, "params": [["x", None]], "kwonly": [], "const": rng.randint(1, 9),
+                                  "tconst": None, "sconst": None, "op": "+", "nested": None, "reads": [], "calls": [],
+                                  "wrap_param": None, "swap": False})
+                    desc.update(node=len(nodes) - 1, changed_defs=[len(nodes) - 1], late=name)
+                    return p, desc
+        return None
+    if kind in ("to_plain", "to_memento"):
+        want = "memento" if kind == "to_plain" else "plain"
+        for i in cand:
+            if nodes[i]["kind"] == want and nodes[i]["version"] is None and i != 0:
+                nodes[i]["kind"] = "plain" if kind == "to_plain" else "memento"
+                desc.update(node=i, changed_defs=[i])
+                return p, desc
+        return None
+    raise ValueError(kind)
+
+
 EDIT_KINDS = ["const", "tconst", "sconst", "nested_const", "op", "swap", "add_param", "default", "kwdefault",
               "add_call", "remove_call", "retarget_call", "retarget_alias", "var_value", "var_mutate", "version_bump",
               "hidden_target"]
